@@ -295,7 +295,28 @@ impl Triangulation3D {
 
             // this will be false if potential_diag is very small.
             let is_diagonal = the_loop.is_diagonal(potential_diag)?;
-            if !is_line && is_diagonal {
+
+            // An interior chord is not enough when the outline visits a
+            // vertex twice (bridges to holes): an ear must also be a convex
+            // corner that contains no other vertex of the outline.
+            let mut is_ear = !is_line && is_diagonal;
+            if is_ear {
+                let corner = (v1 - v0).cross(v2 - v1);
+                is_ear = corner * poly.normal() > 0.0;
+            }
+            if is_ear {
+                let ear = Triangle3D::new(v0, v1, v2)?;
+                for p in the_loop.vertices() {
+                    if p.compare(v0) || p.compare(v1) || p.compare(v2) {
+                        continue;
+                    }
+                    if !matches!(ear.test_point(*p), PointInTriangle::Outside) {
+                        is_ear = false;
+                        break;
+                    }
+                }
+            }
+            if is_ear {
                 // Add triangle
                 t.push(v0, v1, v2, last_added)?;
 
